@@ -110,6 +110,18 @@ PROPS["C20"] = {
     "runs": [R("split", ".", "root", ["ZzC20Split"], params={"GOSTUB": 1}, extras=_EXTRAS, quick_params={"PL": 6, "QL": 6}, thorough_params={"PL": 10, "QL": 10})],
 }
 
+# ---------------------------------------------------------------- C04
+PROPS["C04"] = {
+    "claimed": False, "level_text": "tbd", "level_note": "tbd",
+    "runs": [
+        R("frames-allchunks", "pkg/base", "pkg/base", ["ZzC04Frames"], flags={"concoff": True}, quick_params={"P": 1}, thorough_params={"P": 2}),
+        R("frames-bytewise", "pkg/base", "pkg/base", ["ZzC04Frames"], flags={"concoff": True}, quick_params={"P": 12, "CHUNK1": 1}, thorough_params={"P": 40, "CHUNK1": 1}),
+        R("read-limited", "pkg/base", "pkg/base", ["ZzC04ReadLimited"], flags={"concoff": True}, quick_params={"P": 6}, thorough_params={"P": 8}),
+        R("base64-stream", "internal/base64streamreader", "internal/base64streamreader", ["ZzC04Base64Stream"], flags={"concoff": True}, quick_params={"P": 2}, thorough_params={"P": 3}),
+    ],
+    "parallel": 2,
+}
+
 # ---------------------------------------------------------------- C10
 PROPS["C10"] = {
     "claimed": False, "level_text": "tbd", "level_note": "tbd",
